@@ -391,7 +391,10 @@ func decode(thread *starlark.Thread, b *starlark.Builtin, args starlark.Tuple, k
 					closed = true
 					j++ // skip '"'
 					break
-				} else if b >= utf8.RuneSelf {
+				} else if b >= utf8.RuneSelf || b < 0x20 {
+					// Not safe: non-ASCII needs validation, and
+					// a raw control character is not allowed in
+					// a JSON string (encoding/json reports it).
 					safe = false
 				}
 			}
